@@ -178,7 +178,7 @@ def run(ck):
     traces = []
     for b, t, f in specs:
         cid = cfg_id(b, t, "release", f)
-        ops = gen(ck.rng, quick, t, 8, msm_only=True) if f else gen(ck.rng, quick, t, nmax)
+        ops = nz_filter(gen(ck.rng, quick, t, 8, msm_only=True)) if f else gen(ck.rng, quick, t, nmax)
         variants = [(cid, ops)]
         if b in ("v2", "v512") and t:
             # run-time dispatch forced to the serial copy (and, on v512, to the AVX2 copy)
